@@ -69,6 +69,35 @@ CHECKS = {
         ref="§3/C19",
         note="Trusted: pickle.loads replaced by a recorder during fickling.load so nothing generated is really unpickled.",
     ),
+    "C11": dict(
+        level="model_checking",
+        technique=E2 + "; model = (BASE, current additions); every history without state matching to depth 4/5, then with matching deeper",
+        text="All histories over activate(A) for 5 addition sets / deactivate / construct-unpickler(A) up to depth 4 (quick, 16k histories) or 5, "
+        "each replayed on the real process; after every step 5 probe globals are loaded through pickle.load, pickle.loads and _pickle.loads and "
+        "through a private unpickler instance, and ML_ALLOWLIST (also as seen by the MLAllowlist analysis) is deep-compared with a pristine copy.",
+        ref="§3/C11, §2/E2",
+        note="Trusted: the two-variable model; probe globals chosen to include a new member of an allow-listed module and new modules.",
+    ),
+    "C12": dict(
+        level="model_checking",
+        technique=E2 + "; explicit lifecycle model of the four pickle bindings and a stack of context snapshots",
+        text="All histories over {arm, activate(), activate(x), remove, construct, enter, leave, leave-by-exception, probe load, probe loads} with up "
+        "to 3 open contexts: unmerged to depth 4/6 and merged on (model, classified real bindings, saved bindings of context managers) to depth "
+        "6/8. After every step each real binding is classified by identity/closure and compared with the model; probes must not execute a "
+        "flagged pickle while the model says the entry point is protected.",
+        ref="§3/C12",
+        note="Trusted: the lifecycle model (DESIGN §3/C12); loads under the load-only global check carries no expectation.",
+    ),
+    "C14": dict(
+        level="model_checking",
+        technique=E2 + "; state = (opcode encodings, cached AST digest, cached properties digest); oracle = every view equals that of a fresh Pickled(list(p))",
+        text="All histories of 57 operations (insert/delete/replace/slice-assign/append/extend/pop/reverse/+=/remove, the five injection helpers, "
+        "and explicit reads of ast / properties / severity) to depth 3 (quick) / 4 from 4/6 base pickles; after every step ast, import/call "
+        "summaries, verdict and dumps() are compared with a freshly constructed Pickled over the same opcode list, and dumps() with the "
+        "concatenation of the opcodes' encodings.",
+        ref="§3/C14",
+        note="Trusted: a Pickled's state is (_opcodes, _ast, _properties); exceptions compared by type.",
+    ),
 }
 
 NOT_YET = {}
